@@ -26,6 +26,11 @@ def short_fn(fid):
     return fid
 
 
+def type_width_ok(inner, outer):
+    """re-association across a nested +/- is value-preserving when both are computed in the same type (modular arithmetic)"""
+    return str(inner.get('t', '')).replace('const ', '') == str(outer.get('t', '')).replace('const ', '')
+
+
 class Renderer:
     def __init__(self, func=None, inline_locals=True, keep_casts=False, param_names=False, env=None, flatten=False):
         self.flatten = flatten
@@ -173,6 +178,26 @@ class Renderer:
             if self.keep_casts and not e.get('implicit'):
                 return '(cast %s %s)' % (e.get('t'), inner)
             return inner
+        if k == 'bin' and e.get('op') in ('+', '-') and const_value(e) is None:
+            # a chain of three or more terms joined by + and -: linear normal form (sum pos... | neg...), terms sorted, so that
+            # (a - b) - c, (a - c) - b and a - (b + c) read the same
+            terms = []
+
+            def lin(x, sign):
+                x2 = x
+                while isinstance(x2, dict) and x2.get('k') == 'cast' and 'cv' not in x2 and x2.get('implicit'):
+                    x2 = x2.get('e')
+                if isinstance(x2, dict) and x2.get('k') == 'bin' and x2.get('op') in ('+', '-') and const_value(x2) is None \
+                        and type_width_ok(x2, e):
+                    lin(x2.get('lhs'), sign)
+                    lin(x2.get('rhs'), sign if x2['op'] == '+' else -sign)
+                else:
+                    terms.append((sign, self.r(x, depth + 1)))
+            lin(e, 1)
+            if len(terms) >= 3 and any(sg < 0 for sg, _ in terms):
+                pos = sorted(t for sg, t in terms if sg > 0)
+                neg = sorted(t for sg, t in terms if sg < 0)
+                return '(sum %s | %s)' % (' '.join(pos), ' '.join(neg))
         if k in ('bin', 'assign'):
             op = e.get('op')
             if self.flatten and k == 'bin' and op in ('+', '*', '|', '&', '^', '&&', '||'):
@@ -197,6 +222,8 @@ class Renderer:
                 return '(%s %s)' % (op, ' '.join(sorted(ops)))
             l = self.r(e.get('lhs'), depth + 1)
             rr = self.r(e.get('rhs'), depth + 1)
+            if op == '.*':
+                op = '->*'          # object.*member and pointer->*member denote the same member of the same object
             if op in COMMUTATIVE and rr < l:
                 l, rr = rr, l
             if op == '>' or op == '>=':
@@ -205,7 +232,10 @@ class Renderer:
                 l, rr = rr, l
             return '(%s %s %s)' % (op, l, rr)
         if k == 'un':
-            return '(%s %s)' % (e.get('op'), self.r(e.get('e'), depth + 1))
+            inner = self.r(e.get('e'), depth + 1)
+            if e.get('op') == '*' and inner == 'this':
+                return 'this'       # `*this` handed to a reference parameter is `this` handed to a pointer parameter
+            return '(%s %s)' % (e.get('op'), inner)
         if k == 'cond':
             return '(?: %s %s %s)' % (self.r(e.get('c'), depth + 1), self.r(e.get('a'), depth + 1),
                                       self.r(e.get('b'), depth + 1))
